@@ -60,8 +60,11 @@ def check_cases(cases: list[dict], rep: Report, known: dict) -> None:
             rep.violation(f"evaluation returned {impl[1]!r} although a variable of the expression has no coordinate", info)
         # derivative routes: the differentiation variable itself need not be supplied when absent
         x = c["x"]
-        for r in (routes.ROUTES if rep.tier == "thorough" else ["PL", "LD", "FCAE", "FATL", "PE"]):
-            out = routes.run_route(r, wire.build_raw(c["e"]), x, p)
+        rs = routes.ROUTES if rep.tier == "thorough" else ["PL", "LD", "FCAE", "FATL", "PE"]
+        if len(vs) <= 1:
+            rs = list(rs) + (routes.DERIV_ROUTES if rep.tier == "thorough" else ["DL", "DE"])
+        for r in rs:
+            out = routes.run_route(r, wire.build_raw(c["e"]), x if r not in routes.DERIV_ROUTES else None, p)
             rep.evaluations += 1
             if complete and out == ("err", "missing"):
                 rep.violation(f"route {r} raised CoordinateMissing although every variable of the expression is supplied (differentiating in {x!r})", info)
